@@ -264,6 +264,8 @@ def settings(seed, tier):
     simple('MorletWaveletAnalyzer', 'freqs', lambda x: na.MorletWaveletAnalyzer(x, freqs=[0.1, 0.2]), one_d=True)
     simple('MorletWaveletAnalyzer', 'log', lambda x: na.MorletWaveletAnalyzer(x, f_min=0.15, f_max=0.4, nfreqs=3, log_spacing=True, log_morlet=True), one_d=True)
     simple('CorrelationAnalyzer', 'plain', lambda x: na.CorrelationAnalyzer(x), n=48)
+    # longer than the sizes at which correlation routines switch algorithm (2048): size-dependent paths run here too
+    simple('CorrelationAnalyzer', 'long-2100', lambda x: na.CorrelationAnalyzer(x), n=2100, nch=2)
     simple('NormalizationAnalyzer', 'plain', lambda x: na.NormalizationAnalyzer(x))
     simple('SNRAnalyzer', 'plain', lambda x: na.SNRAnalyzer(x), nch=4, n=64)
     simple('SNRAnalyzer', 'adaptive', lambda x: na.SNRAnalyzer(x, adaptive=True, bandwidth=0.1), nch=4, n=64)
@@ -287,6 +289,9 @@ def settings(seed, tier):
             tgt = _series(rs, 3, N, rate)
             sd = _series(rs, 2, N, rate) if two_d else _series(rs, 1, N, rate, one_d=True)
             kw2 = dict(kw)
+            dead = kw2.pop('dead', None)
+            if dead is not None:
+                tgt.data[dead] = 0.0
             if 'method' in kw2:
                 kw2['method'] = dict(kw2['method'])
             return na.SeedCoherenceAnalyzer(sd, tgt, **kw2), [sd, tgt]
@@ -294,6 +299,8 @@ def settings(seed, tier):
     seedcoh('fs-given', True, method=dict(this_method='welch', NFFT=32, Fs=0.8, n_overlap=8), lb=0.02, ub=0.3)
     seedcoh('fs-missing-band', True, method=dict(this_method='welch', NFFT=32), lb=0.02, ub=0.2)
     seedcoh('default-1d', False)
+    # a dead (all-zero) target channel: its coherency is nan - a getter that "cleans" the stored coherency in place shows only there
+    seedcoh('dead-target', True, dead=1)
 
     def seedcorr(label, two_d):
         def b(variant=0, input=None):
